@@ -259,3 +259,24 @@ Proof.
     + exists conv_do_plain_ok. split; [simpl; tauto | reflexivity].
   - intros c Hc. destruct c as [|[|[|[|c]]]]; try lia. reflexivity.
 Qed.
+
+(* ================================================================== (G) what enters the pool, from the Go source *)
+(* BinaryProtocol.Reset / Recycle of thrift/binary.go and proto/binary/binary.go are translated from the Go text on every build
+   (gen/Gen_thriftpool.v, gen/Gen_protopool.v; the receiver's fields Buf, Read, borrowed are threaded, bpPool.Put is the one effect).
+   get_is_reset and pooled_buffers_are_reset above rest on the model's Put resetting the buffer: this is what the source does. *)
+From DG Require Gen_thriftpool Gen_protopool GenPoolProofs.
+
+Theorem C12_Recycle_from_source :
+  forall buf rd b,
+  Gen_thriftpool.BinaryProtocol_Recycle buf rd b = ([(Gen_thriftpool.Eff_Put, [])], [], 0%Z, false) /\
+  Gen_protopool.BinaryProtocol_Recycle buf rd b = ([(Gen_protopool.Eff_Put, [])], [], 0%Z, false).
+Proof. exact GenPoolProofs.Recycle_puts_reset. Qed.
+Print Assumptions C12_Recycle_from_source.
+
+Theorem C12_Put_is_Recycle_from_source :
+  forall st c s b rd brw, work st c s = Some b ->
+  logical (mem (step st (Put c s)) b) = snd (fst (fst (Gen_thriftpool.BinaryProtocol_Recycle (logical (mem st b)) rd brw))) /\
+  logical (mem (step st (Put c s)) b) = snd (fst (fst (Gen_protopool.BinaryProtocol_Recycle (logical (mem st b)) rd brw))) /\
+  In b (pool (step st (Put c s))).
+Proof. exact GenPoolProofs.Put_is_Recycle. Qed.
+Print Assumptions C12_Put_is_Recycle_from_source.
